@@ -12,6 +12,9 @@ Static clauses:
   S-TOPUP       where take(Some(n)) tops the candidates up from the wider set, every path that skips the top-up passes a test
                 of the window n: a skip for another reason (`best.is_empty()`) leaves a query whose constraints are met by
                 different UTxOs without candidates.  This is one *necessary condition* of the completeness clause, not more
+  S-FAILLATE    inputs::resolve builds `InputNotResolved` only where the selector's select dominates (a block is declared
+                unresolvable only after the selection ran and came back empty)
+  S-PURE        is_only_naked is a universal statement over the entries whose per-entry verdict is "the class is Naked" (E17)
   S-LATTICE / C-ORDER  see E16 / E13 (subset lattice; contains_total and is_empty_or_negative as orders)
 Not decided (not applicable to this family): completeness as such - "finds a match if one exists" depends on the greedy
 algorithm's behaviour over all stores.
